@@ -19,7 +19,35 @@ func NewFilter() *Filter {
 type Filter struct{}
 
 // ApplyFilter runs jq expression provided in jqFilter with jsonData as input.
+// Object-valued outputs are merged into one map; outputs of other types are ignored.
 func (f *Filter) ApplyFilter(jqFilter string, data map[string]any) (map[string]any, error) {
+	outputs, err := run(jqFilter, data)
+	if err != nil {
+		return nil, err
+	}
+
+	return mergeObjects(outputs), nil
+}
+
+// ApplyFilterValue runs jq expression provided in jqFilter with jsonData as input and
+// returns the result as it is: an expression with exactly one output gives this output,
+// whatever its type (object, array, string, number, boolean or null). For any other number
+// of outputs the result is the same as for ApplyFilter.
+func (f *Filter) ApplyFilterValue(jqFilter string, data map[string]any) (any, error) {
+	outputs, err := run(jqFilter, data)
+	if err != nil {
+		return nil, err
+	}
+
+	if len(outputs) == 1 {
+		return outputs[0], nil
+	}
+
+	return mergeObjects(outputs), nil
+}
+
+// run returns all outputs of the jq expression.
+func run(jqFilter string, data map[string]any) ([]any, error) {
 	query, err := gojq.Parse(jqFilter)
 	if err != nil {
 		return nil, err
@@ -28,7 +56,7 @@ func (f *Filter) ApplyFilter(jqFilter string, data map[string]any) (map[string]a
 	// gojs will normalize numbers in the input data, we should create new map for prevent changes in input data
 	workData := deepCopy(data)
 	iter := query.Run(workData)
-	result := make(map[string]any)
+	outputs := make([]any, 0, 1)
 	for {
 		v, ok := iter.Next()
 		if !ok {
@@ -41,12 +69,21 @@ func (f *Filter) ApplyFilter(jqFilter string, data map[string]any) (map[string]a
 			}
 			return nil, err
 		}
+		outputs = append(outputs, v)
+	}
+
+	return outputs, nil
+}
+
+func mergeObjects(outputs []any) map[string]any {
+	result := make(map[string]any)
+	for _, v := range outputs {
 		if resultMap, ok := v.(map[string]any); ok {
 			maps.Copy(result, resultMap)
 		}
 	}
 
-	return result, nil
+	return result
 }
 
 func (f *Filter) FilterInfo() string {
